@@ -5,6 +5,7 @@
 (* something else), CMS signature (verifies / corrupted), TSA anchoring     *)
 (* (its root is a configured anchor / not).  Signing certificate: valid at  *)
 (* reading time, or expired at reading time but valid when the token was    *)
+(* issued, or valid at reading time but not yet valid when the token was    *)
 (* issued.                                                                  *)
 (*   Usable == imprint matches /\ CMS signature verifies                    *)
 (*   the signing time is taken from the token iff Usable                    *)
@@ -17,7 +18,8 @@ EXTENDS Naturals, TLC
 Imprints == {"match", "other"}
 Sigs == {"ok", "corrupt"}
 Anchorings == {"anchored", "not-anchored"}
-Certs == {"valid", "expired-since-signing"}
+\* "valid-only-after-signing": valid at reading time, but its validity begins after the moment at which the token places the signing
+Certs == {"valid", "expired-since-signing", "valid-only-after-signing"}
 Tokens == {"present", "absent"}
 \* the algorithm the TSA signed the token with: one the validator implements, or one it does not (e.g. ECDSA with SHA-1)
 TsaAlgs == {"supported", "unsupported"}
@@ -33,10 +35,16 @@ TimeFromToken == Usable
 Reported == token = "present" /\ ~Usable          \* a time-stamp problem must be reported
 \* "only when": a usable token is necessary for accepting an expired certificate; whether a usable token of a TSA that is not
 \* anchored suffices is the validator's choice (the property does not say), so that case is "either"
+\* a certificate that only became valid after the signing: a usable token of an anchored TSA proves that the signature was made
+\* outside the validity, so the credential must not be reported trusted; without any token the reading time decides
 Verdict == IF cert = "valid" THEN "accepted"
-           ELSE IF ~Usable THEN "not-valid"
-           ELSE IF anchoring = "anchored" THEN "accepted" ELSE "either"
+           ELSE IF cert = "expired-since-signing"
+                THEN (IF ~Usable THEN "not-valid" ELSE IF anchoring = "anchored" THEN "accepted" ELSE "either")
+                ELSE (IF token = "absent" THEN "accepted" ELSE IF Usable /\ anchoring = "anchored" THEN "not-trusted" ELSE "either")
 TimeOnlyWhenUsable == TimeFromToken => (imprint = "match" /\ sig = "ok" /\ tsaAlg = "supported")
 ExpiredNeedsUsableToken == (cert = "expired-since-signing" /\ Verdict = "accepted") => Usable
+TokenTimeBinds == (cert = "valid-only-after-signing" /\ Usable /\ anchoring = "anchored") => Verdict = "not-trusted"
+\* the time taken from a usable anchored token is the time the certificate is judged at -- in both directions
+TimeJudgesBothWays == (Usable /\ anchoring = "anchored") => (Verdict = "accepted" <=> cert # "valid-only-after-signing")
 UnusableNeverRescues == (~Usable /\ cert = "expired-since-signing") => Verdict = "not-valid"
 =============================================================================
